@@ -2,13 +2,13 @@ package props
 
 import (
 	"context"
-	"runtime"
 	"encoding/json"
 	"fmt"
 	"net/http"
 	"net/http/httptest"
 	"net/url"
 	"reflect"
+	"runtime"
 	"strings"
 	"sync"
 	"testing"
@@ -604,6 +604,42 @@ func raceMix(w *world.World, tape *kernel.Tape, mix string) {
 				}
 			})
 		}
+	case "keyset-cancel":
+		// one remote key set, a slow JWKS endpoint, callers that give up (deadline, cancellation) while the shared
+		// download is outstanding, callers that stay, and the download finishing afterwards
+		s, err := codeFlow(w, b, flowOpts{client: "web", scopes: []string{oidc.ScopeOpenID}})
+		if err != nil {
+			return
+		}
+		jws, err := jose.ParseSigned(s.tokens.IDToken, []jose.SignatureAlgorithm{w.SigAlg})
+		if err != nil {
+			return
+		}
+		keysHandler := w.Net.Hosts["op.sim"]
+		w.Net.Hosts["slowkeys.sim"] = http.HandlerFunc(func(rw http.ResponseWriter, r *http.Request) {
+			time.Sleep(20 * time.Millisecond)
+			r2 := r.Clone(r.Context())
+			r2.Host, r2.URL.Host = "op.sim", "op.sim"
+			keysHandler.ServeHTTP(rw, r2)
+		})
+		ks := rp.NewRemoteKeySet(hc, "https://slowkeys.sim/keys")
+		n := ch.Range(3, 6)
+		for i := 0; i < n; i++ {
+			giveUp := time.Duration(ch.Pick("5", "5", "0", "0", "40")[0]-'0') * time.Millisecond
+			if i == 0 {
+				giveUp = 5 * time.Millisecond
+			}
+			add(func() {
+				cctx := ctx
+				if giveUp > 0 {
+					var cancel context.CancelFunc
+					cctx, cancel = context.WithTimeout(ctx, giveUp)
+					defer cancel()
+				}
+				ks.VerifySignature(cctx, jws)
+				time.Sleep(40 * time.Millisecond) // outlive the download
+			})
+		}
 	case "rp-handlers":
 		// several browsers log in through one relying party's HTTP handlers at the same time
 		node, err := world.BuildRP(ctx, w, world.RPOptions{Client: "web", Secret: "secret-web", Host: "web.sim", Redirect: "https://web.sim/callback", Scopes: []string{oidc.ScopeOpenID},
@@ -690,7 +726,7 @@ func raceMix(w *world.World, tape *kernel.Tape, mix string) {
 	wg.Wait()
 }
 
-var raceMixes = []string{"provider", "rp", "rp-handlers", "rs-keyset", "construct", "construct-issuer", "provider-storage-down"}
+var raceMixes = []string{"provider", "rp", "rp-handlers", "rs-keyset", "construct", "construct-issuer", "provider-storage-down", "keyset-cancel"}
 
 func RunC20(t *testing.T, spec kernel.Spec) *kernel.Outcome {
 	out := kernel.NewOutcome(spec)
